@@ -836,6 +836,8 @@ class RTCPeerConnection(AsyncIOEventEmitter):
                 transceiver._set_mid(mid)
             elif media.kind == "application":
                 self.__sctp.mid = mid
+        self.__updateIceConnectionState()
+        self.__updateConnectionState()
 
         # set ICE role
         if description.type == "offer":
@@ -1012,6 +1014,9 @@ class RTCPeerConnection(AsyncIOEventEmitter):
                     dtlsTransport._set_role(
                         role="server" if media.dtls.role == "client" else "client"
                     )
+
+        self.__updateIceConnectionState()
+        self.__updateConnectionState()
 
         # remove bundled transports
         bundle = next((x for x in description.group if x.semantic == "BUNDLE"), None)
@@ -1290,11 +1295,29 @@ class RTCPeerConnection(AsyncIOEventEmitter):
         self.__signalingState = state
         self.emit("signalingstatechange")
 
+    def __transportsInUse(self) -> set[RTCDtlsTransport]:
+        """
+        The transports of the media and data which are part of the session.
+
+        A transceiver or data channel which was created locally but for which
+        no media section has been negotiated (yet) keeps an idle transport, it
+        has no bearing on the state of the connection.
+        """
+        inUse = set()
+        for transceiver in self.__transceivers:
+            if transceiver.mid is not None:
+                inUse.add(transceiver.receiver.transport)
+        if self.__sctp and self.__sctp.mid is not None:
+            inUse.add(self.__sctp.transport)
+        inUse.intersection_update(self.__dtlsTransports)
+        return inUse or self.__dtlsTransports
+
     def __updateConnectionState(self) -> None:
         # compute new state
         # NOTE: we do not have a "disconnected" state
-        dtlsStates = set(map(lambda x: x.state, self.__dtlsTransports))
-        iceStates = set(map(lambda x: x.state, self.__iceTransports))
+        dtlsTransports = self.__transportsInUse()
+        dtlsStates = set(map(lambda x: x.state, dtlsTransports))
+        iceStates = set(map(lambda x: x.transport.state, dtlsTransports))
         if self.__isClosed:
             state = "closed"
         elif "failed" in iceStates or "failed" in dtlsStates:
@@ -1329,7 +1352,7 @@ class RTCPeerConnection(AsyncIOEventEmitter):
     def __updateIceConnectionState(self) -> None:
         # compute new state
         # NOTE: we do not have "connected" or "disconnected" states
-        states = set(map(lambda x: x.state, self.__iceTransports))
+        states = set(map(lambda x: x.transport.state, self.__transportsInUse()))
         if self.__isClosed:
             state = "closed"
         elif "failed" in states:
